@@ -2,13 +2,28 @@ package main
 
 import (
 	"go/ast"
+	"os"
+	"path/filepath"
 	"strings"
 
 	"verif/harness/internal/fact"
 )
 
+// translated functions of txtar/archive.go, callees first
+var txtarGoFuncs = []string{"isMarker", "fixNL", "findFileMarker", "Parse", "NeedsQuote", "Quote", "Unquote"}
+
+func pinnedDir() string {
+	root := os.Getenv("VERIF_ROOT")
+	if root == "" {
+		root = "/verif"
+	}
+	return filepath.Join(root, "harness", "pinned")
+}
+
 func genTxtar(g *fact.Gen) {
 	const rel = "txtar/archive.go"
+	g.TranslateModule("TxtarGo", rel, txtarGoFuncs, "txtar",
+		[]string{"GIV.GoLib", "GIV.Model.Txtar", "GIV.Gen.Txtar"}, "GIV.Go.Txtar", filepath.Join(pinnedDir(), "TxtarGo.lean"))
 	g.EmitBytesVar(rel, "marker", "marker", "-- ")
 	g.EmitBytesVar(rel, "markerEnd", "markerEnd", " --")
 	g.EmitBytesVar(rel, "newlineMarker", "newlineMarker", "\n-- ")
